@@ -645,9 +645,16 @@ def file_texts(cfg, with_includes=True):
     if empty_a:
         incs = {f: [x for x in ls if x != "A"] for f, ls in incs.items()}
 
+    def spelled(f, leaf):
+        # some configurations spell B's include of A relative to B's own directory ("../d1/A.prophy"): that names
+        # the very file the search order resolves "A.prophy" to, so the model's resolution is unchanged
+        if cfg.get("relpath") and f == "B" and leaf == "A" and cfg["res"]["B"] == ["A"] and cfg["dirOf"].get("A") not in (None, "none"):
+            return "../%s/A" % cfg["dirOf"]["A"]
+        return leaf
+
     def inc_lines(f):
         # (some include lines carry a comment that contains quotes)
-        return "".join('#include "%s.prophy"%s\n' % (leaf, ' /* see "%s" */' % leaf if cfg.get("emptyA") or leaf == "B" else "")
+        return "".join('#include "%s.prophy"%s\n' % (spelled(f, leaf), ' /* see "%s" */' % leaf if cfg.get("emptyA") or leaf == "B" else "")
                        for leaf in real_incs[f]) if with_includes else ""
     a = inc_lines("A") + ("// no definitions in this file\n/* only comments */\n" if empty_a else DECL["A"])
     a2 = "const CA = 5;\nenum EA { EA_x = 1, EA_y = 5 };\ntypedef u16 TA;\nstruct SA { u8 x[CA]; EA e; u16 extra; };\n"
@@ -731,7 +738,7 @@ def include_worker(cases, wid, extra):
         for ci, cfg in enumerate(cases):
             root = os.path.join(base, "w%d_c%d" % (wid, ci))
             os.makedirs(root)
-            cfg = dict(cfg, emptyA=(ci % 5 == 4 and cfg["reads"].get("A2", 0) == 0))
+            cfg = dict(cfg, emptyA=(ci % 5 == 4 and cfg["reads"].get("A2", 0) == 0), relpath=(ci % 3 == 1))
             paths = materialise(cfg, root)
             out = os.path.join(root, "out%d_%d" % (wid, ci))
             os.makedirs(out)
